@@ -1116,7 +1116,7 @@ func (c *FnCtx) execInstr(fr *Frame, st *State, instr ssa.Instruction) {
 		for _, b := range x.Bindings {
 			free = append(free, c.val(fr, st, b))
 		}
-		fr.regs[x] = Fn{F: f, Free: free}
+		fr.regs[x] = Fn{F: f, Free: free, CID: c.allocRef(st, "closure")}
 	case *ssa.Phi:
 		fr.regs[x] = c.phi(fr, st, x)
 	case *ssa.Call:
